@@ -485,6 +485,9 @@ mod hint;
 mod stdlib;
 pub mod util;
 pub mod values;
+#[cfg(starlark_verif)]
+#[allow(missing_docs)]
+pub mod verif;
 pub mod wasm;
 
 pub mod pagable;
